@@ -604,7 +604,7 @@ func c13Commands(c *fw.Ctx) {
 						continue
 					}
 					for _, env := range c16Envs {
-						if (env == "generate-dest-exists" && cmd != "generate") || (cmd == "generate" && strings.HasPrefix(env, "src-")) {
+						if ((env == "generate-dest-exists" || env == "generate-no-fill") && cmd != "generate") || (cmd == "generate" && strings.HasPrefix(env, "src-")) {
 							continue
 						}
 						if !c.Mine() {
